@@ -41,6 +41,8 @@ def run(rep, tier):
     parent_test(rep, F)
     builder_roles(rep, F)
     helper_update(rep, F)
+    sweep_split(rep, F)
+    stitch_keeps_interiors(rep, F)
 
 
 def earcut_layout(rep, F):
@@ -301,3 +303,104 @@ def parent_test(rep, F):
         rep.bad("R10.6", "parent-test", "the parent test is %s%s: a hole whose vertices all lie on the outline of its parent (pieces touching in single points around a void) is then not "
                 "recognised and is emitted as a separate polygon" % ([(t[1].method, [x.rsplit("::", 1)[-1] for x in t[2]]) for t in tests], " under an `%s` over coordinates" % folds[0][1].method if folds else ""),
                 where=fs[0].loc())
+
+
+def sweep_split(rep, F):
+    """R10.7: the monotone sweep's check_interior_intersection(a, b), with the accessors of the two segments answered by a witness (left / right
+    end points in sweep order, orient2d of a segment and a point), on every pair of grid segments: SplitA(p) only for an end point p of b that
+    lies strictly inside a (collinear with a and strictly between its end points); SplitB(p) symmetrically; None only when no end point of
+    one segment lies strictly inside the other.  A split at any other point cuts an edge where it does not pass."""
+    from ..evalterm import Evaluator, Enum, NoModel, orient
+    import itertools
+    rep.rule("R10.7", "monotone sweep, check_interior_intersection (all pairs of segments of a 3x3 grid): SplitA(p) / SplitB(p) is returned only for an end point p of the other segment lying strictly inside the split segment, None only when there is none")
+    try:
+        fn = F.one(r"sweep::SimpleSweep::<T, P>::check_interior_intersection$", crates=("geo",))
+        paths = [p for p in Symex(F, inline_crates=()).run(fn) if p.kind != "cut"]
+    except (KeyError, Unanalysable) as e:
+        rep.bad("R10.7", "sweep-split:anchor", str(e))
+        return
+    ORI = "geo::algorithm::kernels::Orientation"
+
+    class Ev(Evaluator):
+        def call(self, t):
+            m = t[1].rsplit("::", 1)[-1]
+            a = t[2]
+            if m == "line" and len(a) == 1:
+                return self.ev(a[0])
+            if m in ("left", "right") and len(a) == 1:
+                return self.ev(a[0])[m]
+            if m in ("deref", "clone", "into", "from") and len(a) == 1:
+                return self.ev(a[0])
+            if m == "orient2d" and len(a) == 2:
+                seg, pt = self.ev(a[0]), self.ev(a[1])
+                return Enum(ORI, orient({"x": seg["left"][0], "y": seg["left"][1]}, {"x": seg["right"][0], "y": seg["right"][1]}, {"x": pt[0], "y": pt[1]}))
+            if m in ("eq", "ne") and len(a) == 2:
+                r = self.ev(a[0]) == self.ev(a[1])
+                return r if m == "eq" else not r
+            if m in ("lt", "le", "gt", "ge") and len(a) == 2:
+                x, y = self.ev(a[0]), self.ev(a[1])
+                return {"lt": x < y, "le": x <= y, "gt": x > y, "ge": x >= y}[m]
+            return Evaluator.call(self, t)
+    pts = [(x, y) for x in range(3) for y in range(3)]
+    segs = [{"left": p, "right": q} for p in pts for q in pts if p < q]
+
+    def strictly_inside(p, s):
+        return s["left"] < p < s["right"] and orient({"x": s["left"][0], "y": s["left"][1]}, {"x": s["right"][0], "y": s["right"][1]}, {"x": p[0], "y": p[1]}) == "Collinear"
+    n = 0
+    for sa, sb in itertools.product(segs, repeat=2):
+        ev = Ev(F, {("arg", 2): sa, ("arg", 3): sb})
+        try:
+            hit = ev.select_path(paths)
+            if len(hit) != 1 or hit[0].kind != "ret":
+                rep.bad("R10.7", "sweep-split:table", "segments %s, %s select %s rows" % (sa, sb, [h.kind for h in hit]), where=fn.loc())
+                return
+            r = ev.ev(hit[0].ret)
+        except (NoModel, TypeError, KeyError) as e:
+            rep.bad("R10.7", "sweep-split:non-abstractable", "a decision is not a function of the end points' sweep order and of orient2d(segment, end point): %s" % e, where=fn.loc())
+            return
+        n += 1
+        cand_a = [p for p in (sb["left"], sb["right"]) if strictly_inside(p, sa)]
+        cand_b = [p for p in (sa["left"], sa["right"]) if strictly_inside(p, sb)]
+        v = r.variant if isinstance(r, Enum) else str(r)
+        pay = tuple(r.payload[0]) if isinstance(r, Enum) and r.payload else None
+        ok = (v == "SplitA" and pay in cand_a) or (v == "SplitB" and pay in cand_b) or (v == "None" and not cand_a and not cand_b)
+        if not ok:
+            rep.bad("R10.7", "sweep-split:table", "a = %s-%s, b = %s-%s: the table returns %s%s; end points of b strictly inside a: %s, of a strictly inside b: %s" %
+                    (sa["left"], sa["right"], sb["left"], sb["right"], v, pay or "", cand_a, cand_b), where=fn.loc())
+            return
+    rep.ok("R10.7", "sweep-split[%d segment pairs]" % n)
+
+
+def stitch_keeps_interiors(rep, F):
+    """R10.8: find_and_fix_holes_in_exterior never loses a hole: on every returning path the result is the input polygon itself, or a
+    Polygon::new(.., interiors) whose interiors term is built from the input's own interiors (Polygon::interiors(poly) / into_inner(poly))."""
+    rep.rule("R10.8", "stitch, find_and_fix_holes_in_exterior: on every path the result is the input polygon or a polygon whose interiors are derived from the input polygon's interiors() as well as from the rings split off the exterior (previously existing holes are preserved)")
+    try:
+        fn = F.one(r"stitch::find_and_fix_holes_in_exterior$", crates=("geo",))
+        ps = [p for p in Symex(F, inline_crates=(), loop_bound=1).run(fn) if p.kind == "ret"]
+    except (KeyError, Unanalysable) as e:
+        rep.bad("R10.8", "stitch-interiors:anchor", str(e))
+        return
+
+    def mentions_own_interiors(t, d=0):
+        if not isinstance(t, tuple) or d > 60:
+            return False
+        if t and t[0] == "call" and isinstance(t[1], str) and t[1].rsplit("::", 1)[-1] in ("interiors", "into_inner", "interiors_mut") and "a1" in show(t)[:400]:
+            return True
+        return any(mentions_own_interiors(x, d + 1) for x in t if isinstance(x, tuple))
+    n_new = 0
+    for p in ps:
+        r = p.ret
+        if r == ("arg", 1):
+            continue
+        if r[0] == "call" and r[1].endswith("Polygon::<T>::new") and len(r[2]) == 2:
+            n_new += 1
+            if mentions_own_interiors(r[2][1]):
+                rep.ok("R10.8", "stitch-interiors:rebuilt[%d]" % n_new)
+            else:
+                rep.bad("R10.8", "stitch-interiors:dropped", "the polygon rebuilt from the split exterior takes its interiors from %s: the holes the input polygon already had are dropped" % show(r[2][1])[:200], where=fn.loc())
+        elif "a1" in show(r)[:2000] and not (r[0] == "call" and "new" in r[1]):
+            continue        # the input polygon, possibly mutated in place
+        else:
+            rep.bad("R10.8", "stitch-interiors:shape", "a path returns %s, neither the input polygon nor Polygon::new(exterior, interiors)" % show(r)[:160], where=fn.loc())
+    rep.floor("R10.8", "paths rebuilding the polygon", n_new, 1)
